@@ -19,10 +19,85 @@ pub struct Stats {
     pub samples: Vec<Value>,
 }
 
+#[derive(Clone, Copy, PartialEq)]
+pub enum Mode {
+    Plain,
+    /// C06: run every behaviour a second time with different derivative parts; the real
+    /// part of every result must not change by a single bit, observations must be equal
+    TwoRun,
+    /// C07: run every behaviour a second time with every absent part replaced by explicit
+    /// zeros; every part of every result must be numerically identical
+    ZeroFill,
+}
+
 struct Run<'a> {
     beh: &'a Value,
     stats: &'a mut Stats,
     max_report: usize,
+    mode: Mode,
+}
+
+/// derivative parts x -> 1 - 3x (stays a small dyadic), real parts untouched
+fn perturb(v: &Value, top: bool, odd: bool) -> Value {
+    match v {
+        Value::Object(o) => {
+            if o.contains_key("p") {
+                let mut m = o.clone();
+                if let Some(x) = o.get("m") {
+                    m.insert("m".into(), perturb(x, false, odd));
+                }
+                return Value::Object(m);
+            }
+            let mut m = serde_json::Map::new();
+            for (k, x) in o {
+                if top && k == "re" {
+                    // the real part of a nested scalar: keep its own real part as well
+                    m.insert(k.clone(), if x.is_object() { perturb(x, true, odd) } else { x.clone() });
+                } else {
+                    m.insert(k.clone(), perturb(x, false, odd));
+                }
+            }
+            Value::Object(m)
+        }
+        Value::Array(a) if a.len() == 2 && a[0].is_i64() && a[1].is_i64() => {
+            let (n, d) = (a[0].as_i64().unwrap(), a[1].as_i64().unwrap());
+            // register-dependent, so that two registers loaded with the same value differ
+            if odd { json!([d - 3 * n, d]) } else { json!([2 * n + 3 * d, d]) }
+        }
+        Value::Array(a) => Value::Array(a.iter().map(|x| perturb(x, false, odd)).collect()),
+        _ => v.clone(),
+    }
+}
+
+fn zeros(r: usize, c: usize) -> Value {
+    json!({"p": true, "m": (0..r).map(|_| (0..c).map(|_| json!([0, 1])).collect::<Vec<_>>()).collect::<Vec<_>>(), "dims": [r, c]})
+}
+
+/// explicit zeros instead of absent parts, dimensions from the TLC type descriptor
+fn zero_fill(v: &Value, ty: &Value) -> Value {
+    let k = ty["k"].as_str().unwrap_or("");
+    let n = ty.get("n").and_then(|x| x.as_u64()).unwrap_or(1) as usize;
+    let m = ty.get("m").and_then(|x| x.as_u64()).unwrap_or(1) as usize;
+    let dims = |f: &str| -> (usize, usize) {
+        match (k, f) {
+            ("DualVec", _) => (n, 1),
+            ("Dual2Vec", "v1") => (1, n),
+            ("Dual2Vec", _) => (n, n),
+            ("HyperDualVec", "eps1") => (m, 1),
+            ("HyperDualVec", "eps2") => (1, n),
+            _ => (m, n),
+        }
+    };
+    let mut out = v.clone();
+    if let Some(o) = out.as_object_mut() {
+        for (f, x) in o.iter_mut() {
+            if x.get("p") == Some(&Value::Bool(false)) {
+                let (r, c) = dims(f);
+                *x = zeros(r, c);
+            }
+        }
+    }
+    out
 }
 
 fn width_ok(vals: &[f64], mant: u32, deg: u32) -> bool {
@@ -67,6 +142,7 @@ impl<'a> TypeFn for Run<'a> {
     fn call<T: Calc>(self) {
         let nr = self.beh.get("nr").and_then(|x| x.as_u64()).unwrap_or(2) as usize;
         let mut regs: Vec<T> = (0..nr).map(|_| T::zero()).collect();
+        let mut regs2: Vec<T> = regs.clone();
         let events = self.beh.get("events").and_then(|x| x.as_array()).cloned().unwrap_or_default();
         for (k, e) in events.iter().enumerate() {
             let ev = match Ev::from_json(&e["ev"]) {
@@ -121,6 +197,46 @@ impl<'a> TypeFn for Run<'a> {
                     return; // the registers are no longer those of the model
                 }
             }
+            // second run of the same event on the shadow registers
+            if self.mode != Mode::Plain {
+                let mut ev2 = ev.clone();
+                if ev.op == "load" {
+                    ev2.v = match self.mode {
+                        Mode::TwoRun => perturb(&ev.v, true, ev.d % 2 == 1),
+                        _ => zero_fill(&ev.v, &self.beh["ty"]),
+                    };
+                }
+                let res2 = catch_unwind(AssertUnwindSafe(|| T::apply(&regs2, &ev2)));
+                let (obs2, new2): (Value, Option<T>) = match res2 {
+                    Err(_) => (json!({"panic": true}), None),
+                    Ok(Err(err)) => (json!({"tool_error": err}), None),
+                    Ok(Ok(Out::Unsupported)) => (Value::Null, None),
+                    Ok(Ok(Out::Bool(b))) => (json!(b), None),
+                    Ok(Ok(Out::Re(x))) => (f64_to_json(x), None),
+                    Ok(Ok(Out::Val(v))) => (v.to_json(), Some(v)),
+                };
+                let agree = match self.mode {
+                    Mode::TwoRun => {
+                        if newval.is_some() { observed.get("re") == obs2.get("re") } else { observed == obs2 }
+                    }
+                    _ => ev.op == "load" || compare(&observed, &obs2) != Cmp::Differ,
+                };
+                self.stats.compared += 1;
+                if !agree {
+                    self.stats.n_mismatch += 1;
+                    if self.stats.mismatches.len() < self.max_report {
+                        self.stats.mismatches.push(json!({
+                            "type": T::KEY, "step": k + 1, "event": e["ev"], "expected": observed,
+                            "observed": obs2, "behaviour": self.beh,
+                            "second_run": if self.mode == Mode::TwoRun { "same real parts, different derivative parts" } else { "absent parts replaced by explicit zeros" },
+                        }));
+                    }
+                    return;
+                }
+                if let Some(v) = new2 {
+                    regs2[ev.d - 1] = v;
+                }
+            }
             if let Some(v) = newval {
                 regs[ev.d - 1] = v;
             }
@@ -146,7 +262,7 @@ pub fn parse_line(line: &str) -> Option<Value> {
     None
 }
 
-pub fn replay_file(path: &str, only_types: Option<&str>, ops: Option<&str>, max_report: usize) -> Result<Stats, String> {
+pub fn replay_file(path: &str, only_types: Option<&str>, ops: Option<&str>, max_report: usize, mode: Mode) -> Result<Stats, String> {
     let text = std::fs::read_to_string(path).map_err(|e| format!("{path}: {e}"))?;
     let mut stats = Stats::default();
     let opset: Option<Vec<&str>> = ops.map(|o| o.split(',').collect());
@@ -167,7 +283,7 @@ pub fn replay_file(path: &str, only_types: Option<&str>, ops: Option<&str>, max_
                     continue;
                 }
             }
-            dispatch(key, Run { beh: &beh, stats: &mut stats, max_report });
+            dispatch(key, Run { beh: &beh, stats: &mut stats, max_report, mode });
         }
     }
     Ok(stats)
